@@ -62,6 +62,7 @@ const (
 )
 
 type mwCfg struct {
+	pSpecial                 int // 1-in-N chance that states carry names the machine knows (Start, Ready, ...)
 	minStates, maxStates     int
 	pRequire, pAdd, pRemove  int // 1-in-N per ordered pair (0 = never)
 	pAfter                   int
@@ -174,6 +175,17 @@ func genSchema(tp *core.Tape, c *mwCfg) (am.Schema, am.S) {
 	names := am.S{}
 	for i := 0; i < n; i++ {
 		names = append(names, stateName(i))
+	}
+	// names the machine itself gives a meaning to (Dispose's Start grace step,
+	// the Disposing route of a context cancel, health transitions)
+	if c.pSpecial > 0 && tp.Draw(c.pSpecial) == 1 {
+		special := am.S{am.StateStart, am.StateReady, am.StateHeartbeat, am.StateHealthcheck, am.StateDisposing}
+		names[tp.Draw(n)] = special[tp.Draw(len(special))]
+		if n > 2 && tp.Draw(2) == 1 {
+			if k, sp := tp.Draw(n), special[tp.Draw(len(special))]; !slices.Contains(names, sp) {
+				names[k] = sp
+			}
+		}
 	}
 	sc := am.Schema{}
 	for i, nm := range names {
